@@ -308,8 +308,12 @@ func c08Class(kind string, m fmtMode, src []byte, origin string) string {
 		return v + "-simplify-unquotes-label-with-identifier-sibling"
 	case m.simplify && kind == "tree-changed" && hasAnyPatternWithAttr(f0):
 		return v + "-simplify-any-pattern-with-attribute-becomes-ellipsis"
+	case m.simplify && (kind == "tree-changed" || kind == "comment-lost" || kind == "comment-reattached") && hasAnyPatternField(f0):
+		return v + "-simplify-ellipsis-moves-or-drops-comments"
 	case strings.Contains(origin, "generated(seed"):
 		return v + "-generated-layout:" + kind
+	case strings.HasPrefix(origin, "mutant("):
+		return v + "-" + origin[:strings.Index(origin, ")")+1] + ":" + kind
 	}
 	return kind + "-" + v
 }
@@ -362,6 +366,21 @@ func hasAnyPatternWithAttr(f *ast.File) bool {
 	found := false
 	ast.Walk(f, func(n ast.Node) bool {
 		if fl, ok := n.(*ast.Field); ok && len(fl.Attrs) > 0 && isAnyPattern(fl) {
+			found = true
+		}
+		return true
+	}, nil)
+	return found
+}
+
+// hasAnyPatternField: `[_]: _` or `[string]: _` (rewritten to `...` and moved to the end by -s), or `...` itself.
+func hasAnyPatternField(f *ast.File) bool {
+	found := false
+	ast.Walk(f, func(n ast.Node) bool {
+		if fl, ok := n.(*ast.Field); ok && isAnyPattern(fl) {
+			found = true
+		}
+		if _, ok := n.(*ast.Ellipsis); ok {
 			found = true
 		}
 		return true
